@@ -26,7 +26,8 @@ RULE = ("seeded histories (quick 500 x ~45 steps, thorough 9000 x ~50) over a po
         "with every result: + - * / // between pool members and with plain numbers on either side, == and <, "
         "GetValue(s)(unit) incl. the own unit (returns the internal container), CreateCopy(), "
         "CreateCopy(unit[, category]), copy/deepcopy/Copy, pickle round trips, IsValid, str/repr/GetFormatted, "
-        "ChangingIndex (number / Scalar, both unit modes, negative and out-of-range indices), IndexAsScalar, "
+        "ChangingIndex (number / Scalar, both unit modes, negative and out-of-range indices), IndexAsScalar, powers of "
+        "one amount in two units combined (exponent-aware unit matching on whole containers), "
         "plus a malformed stream (class mixes, foreign units, bad dimensions, zero divisors); distinct = "
         "distinct history; non-trivial = some step involved an object that shares a container, a FractionValue "
         "or an interned quantity with an earlier pool member and at least one step allocated cells")
@@ -556,6 +557,37 @@ class Gen:
             return dict(k="indexAsScalar", i=i, idx=rng.choice(list(range(-d, d)) + [d]))
         return self.gen_create()
 
+    def pattern_powers(self):
+        """x**e and (the same amount in another unit)**e, then + - * / between the two: the unit matching of the
+        arithmetic then converts a whole operand value with an exponent (the `ratio ** exp` path)"""
+        rng = self.rng
+        cands = [i for i in self.of_class("Array", "FixedArray", "Scalar")
+                 if not self.pool[i].GetQuantity().IsDerived() and self.pool[i].GetQuantityType() in self.types]
+        if not cands:
+            return
+        i = rng.choice(cands)
+        others = [u for u in self.types[self.pool[i].GetQuantityType()][0] if u != self.pool[i].GetUnit()]
+        if not others:
+            return
+        n0 = len(self.pool)
+        self.push(dict(k="createCopy", i=i, u=rng.choice(others), c=None))
+        if len(self.pool) == n0:
+            return
+        e = rng.choice([2, 2, 3])
+        tops = []
+        for base in (i, n0):
+            a = base
+            for _ in range(e - 1):
+                n1 = len(self.pool)
+                self.push(dict(k="arith", f="mul", a=dict(i=a), b=dict(i=base)))
+                if len(self.pool) == n1:
+                    return
+                a = n1
+            tops.append(a)
+        if rng.random() < 0.5:
+            tops.reverse()
+        self.push(dict(k="arith", f=rng.choice(["add", "sub", "mul", "div"]), a=dict(i=tops[0]), b=dict(i=tops[1])))
+
     def history(self, steps):
         from barril.units.unit_database import UnitDatabase
 
@@ -566,7 +598,10 @@ class Gen:
             for _ in range(steps):
                 if len(self.pool) >= MAX_POOL:
                     break
-                self.push(self.gen_op())
+                if self.rng.random() < 0.04:
+                    self.pattern_powers()
+                else:
+                    self.push(self.gen_op())
         finally:
             UnitDatabase.PopSingleton()
         return self.ops
